@@ -458,6 +458,11 @@ func (e *env) burst(tag string, seed, nreq, nrel, vf, gf int) bool {
 
 func impl(in hv.Val) hv.Val {
 	ops, isL := in.(hv.L)
+	if isL {
+		if tops, ok := tlsLegal(ops); ok {
+			return tlsImpl(tops)
+		}
+	}
 	if !isL || !legal(ops) {
 		return hv.Err(0)
 	}
@@ -555,13 +560,17 @@ func gen(r *hv.Rng, i int, tier string) (string, hv.Val) {
 	if i == 0 {
 		return "triv-one-request", hv.L{hv.L{hv.I(3), hv.I(0), hv.I(0)}}
 	}
-	if i%97 == 5 { // malformed / illegal op orders
+	if i%3 == 2 { // TLS tables
+		return genTLS(r)
+	}
+	if i%97 == 4 { // malformed / illegal op orders
 		bad := []hv.Val{
 			hv.L{hv.L{hv.I(4), hv.I(0), hv.I(0)}},                                  // continue a request that was never started
 			hv.L{hv.L{hv.I(3), hv.I(0), hv.I(2)}, hv.L{hv.I(3), hv.I(0), hv.I(1)}}, // start an active rid
 			hv.L{hv.L{hv.I(3), hv.I(0), hv.I(3)}, hv.L{hv.I(4), hv.I(0), hv.I(2)}}, // hold points must increase
 			hv.L{hv.L{hv.I(1), hv.I(4)}},                                           // unknown version
 			hv.L{hv.L{hv.I(9)}}, hv.I(3), hv.L{hv.L{hv.I(2), hv.I(3)}}, hv.L{hv.L{hv.I(7), hv.I(1)}}, hv.L{hv.L{}},
+			hv.L{hv.I(100), hv.L{hv.L{hv.I(4), hv.I(7)}}}, hv.L{hv.I(100), hv.I(1)}, hv.L{hv.I(100), hv.L{hv.L{hv.I(2), hv.I(1)}}},
 		}
 		return "triv-malformed", bad[r.Intn(len(bad))]
 	}
@@ -640,7 +649,7 @@ func gen(r *hv.Rng, i int, tier string) (string, hv.Val) {
 }
 
 func main() {
-	hv.Main(&hv.Spec{Prop: "C15", Gen: gen, Impl: impl, NQuick: 700, NThorough: 20000})
+	hv.Main(&hv.Spec{Prop: "C15", Gen: gen, Impl: impl, NQuick: 420, NThorough: 20000})
 	if E != nil {
 		E.srv.Close()
 	}
